@@ -39,7 +39,7 @@ THEOREMS = [
     'Px.Reverse.C12_relay', 'Px.Reverse.C12_relay_segments', 'Px.Reverse.C12_relay_stops',
     'Px.Reverse.C12_dynamic_literal', 'Px.Reverse.C12_dynamic_url',
     'Px.Reverse.C12_refused', 'Px.Reverse.C12_close', 'Px.Reverse.C12_connections_independent',
-    'Px.Reverse.C12_followup_no_upstream_route', 'Px.Reverse.C12_followup_no_route',
+    'Px.Reverse.C12_followup_no_upstream_route', 'Px.Reverse.C12_followup_no_route', 'Px.Reverse.C12_followup_target',
 ]
 RULE = ('route tables (1..3 plugins, 0..3 routes each: static with 1..3 upstream URLs http/https with/without '
         'port and path, dynamic returning Url or literal response or raising; edge URLs without scheme/host, bad '
